@@ -65,8 +65,10 @@ class HistogramCollection(Container[Histogram1D], ObjectWithBinning):
         # TODO: The binnings are probably not consistent in the copies
         binning_copy = self.binning.copy()
         histograms = [h.copy() for h in self.histograms]
-        for histogram in histograms:
-            histogram._binning = binning_copy
+        if not binning_copy.is_adaptive():
+            # (Adaptive binnings change in place with their histogram, each keeps its own)
+            for histogram in histograms:
+                histogram._binning = binning_copy
         return HistogramCollection(*histograms, title=self.title, name=self.name)
 
     @property
